@@ -337,3 +337,15 @@ _extend('C05',
         'an append, held batches are never overwritten, what the loader reads for batch k (also after flush / reopen / pickling) is the '
         'k-th added batch.',
         [('the on-disk part relies on C06, memory layouts', 'the on-disk part is linked to the C06 model by C05_on_disk_store_is_pool_store (one store at a time, contiguous batch indices), memory layouts')])
+
+
+_extend('C14',
+        ' C14_reachable_models_well_formed / C14_reachable_generate_is_dataflow: every model reachable by an edit script whose EAddNode '
+        'states have one of the six constructor shapes and a non-reserved name, and whose observed data are set on observable nodes only, '
+        'satisfies the well-formedness record wfsrc that the end-to-end theorems of C02/C03/C05/C08 assume - so generate on every '
+        'script-reachable model returns the user-level meaning; both guards are shown necessary by refuted examples (a node named '
+        '_batch_size; observed data written on a constant).')
+_extend('C05',
+        ' C05_on_disk_pool_get_batch / _add_batch / _run / _two_runs: the lift to whole pools - get_batch, add_batch and whole runs over '
+        'batch indices 0,1,2,... (also with flush / reopen of all stores between two runs) commute with the abstraction from disk pools to '
+        'the pool model; an index gap is where the two models differ (counterexample in the file).')
